@@ -3,6 +3,7 @@ package main
 import (
 	"bytes"
 	"fmt"
+	"strings"
 
 	"github.com/cybergarage/go-redis/redis"
 	"verif/double"
@@ -326,11 +327,24 @@ func c03run(idx int) run.Result {
 			hows = append(hows, fmt.Sprintf("split@%d", 1+r.Intn(len(stream)-1)))
 		}
 	}
+	// one request at a time with a pause, longer than any read deadline, before one of the requests
+	// (virtual time: the scripted transport times the read out iff the server armed a read deadline)
+	if len(reqs) >= 2 {
+		hows = append(hows, fmt.Sprintf("idle-before-request@%d", 1+r.Intn(len(reqs)-1)))
+	}
 	for _, how := range hows {
 		rec2 := double.NewRec()
 		rec2.Script = c03script(idx, pc)
 		chunks := makeChunks(stream, ends, how, r)
-		pr := runPipe(newServer(rec2), reqs, chunks, sconn.Script{End: sconn.EOF})
+		script := sconn.Script{End: sconn.EOF}
+		if strings.HasPrefix(how, "idle-before-request@") {
+			var k int
+			fmt.Sscanf(how, "idle-before-request@%d", &k)
+			chunks = chunkAt(stream, ends)
+			script.IdleAt = k + 1 // the would-block read after k replies
+		}
+		pr := runPipe(newServer(rec2), reqs, chunks, script)
+		res.Count("read_deadlines_armed", int64(pr.Snap.ReadDeadlines))
 		res.Count("would_block_reads_judged", int64(len(pr.Snap.WouldBlocks)))
 		res.Count("chunked_runs", 1)
 		if pr.TimedOut {
@@ -390,7 +404,7 @@ func init() {
 	run.Register(&run.Prop{
 		ID: "C03", Level: "exploration",
 		Rule: func(tier string) string {
-			return "case = one pipeline of 1..N requests (N=8 quick, 32 thorough; request 0 rotates over every grammar entry; the rest random: valid vectors with all option flags, ill-formed variants, surplus arguments, unknown commands, QUIT) with a recording handler scripted to fail chosen calls (and, in every sixth case, to return a nil message without an error for every fourth call), served over a scripted connection under: one request per chunk (reference), whole, 1-byte, two random k-way partitions and every 2-way split of short streams. Oracle: at every would-block read complete frames == requests fully delivered; one frame per request; reply i is what the double returned for request i; handler error => error frame and next request normal; QUIT => +OK, close, nothing behind it executed; outputs byte-identical across chunkings; spin = >=3 s CPU without a transport/handler event (child watchdog). distinct = (pipeline, served read-size sequence); non-trivial = pipeline length >= 2 or non-whole chunking"
+			return "case = one pipeline of 1..N requests (N=8 quick, 32 thorough; request 0 rotates over every grammar entry; the rest random: valid vectors with all option flags, ill-formed variants, surplus arguments, unknown commands, QUIT) with a recording handler scripted to fail chosen calls (and, in every sixth case, to return a nil message without an error for every fourth call), served over a scripted connection under: one request per chunk (reference), whole, 1-byte, two random k-way partitions, every 2-way split of short streams, and one request per chunk with the client pausing before a seeded request for longer than any read deadline (virtual time). Oracle: at every would-block read complete frames == requests fully delivered; one frame per request; reply i is what the double returned for request i; handler error => error frame and next request normal; QUIT => +OK, close, nothing behind it executed; outputs byte-identical across chunkings; spin = >=3 s CPU without a transport/handler event (child watchdog). distinct = (pipeline, served read-size sequence); non-trivial = pipeline length >= 2 or non-whole chunking"
 		},
 		Assumptions: []string{"spin detection threshold: 3 s of process CPU time without any transport/handler event", "wall-clock watchdog firing is reported inconclusive"},
 		Setup: func(tier string, seed uint64) int {
